@@ -442,54 +442,67 @@ def _f1_resource_problem(p, blocked_alias, redirected):
     return False
 
 
-def classify(case, level, group, probs, hang_cmd=None, also=()):
+def classify(case, level, group, probs, hang_cmd=None, also=(), prefer=()):
+    """Id of the recorded finding this failure is an instance of (narrow predicate on the failing case), or None.
+    A case can have the shape of several findings (`abig | noexecp` followed by `sal | acat` has F1's and F3's);
+    when more than one predicate accepts the symptom, a finding that is still *open* (`prefer`) wins over a
+    fixed one - a fixed finding must not claim (and thereby turn into a 'recurrence') what an open one explains."""
+    cands = _candidates(case, level, group, probs, hang_cmd, also)
+    for c in cands:
+        if c in prefer:
+            return c
+    return cands[0] if cands else None
+
+
+def _candidates(case, level, group, probs, hang_cmd, also):
+    out = []
     if level == "hang":
         if hang_cmd is not None and _threaded(case) and case["cfg"].get("raise", True) and "asub" in hang_cmd["stages"]:
-            return "C09-F7"
+            out.append("C09-F7")
         if hang_cmd is not None and shape_f6_cmd(hang_cmd, case):
-            return "C09-F6"
-        return None
+            out.append("C09-F6")
+        return out
     if shape_f1(case):
         blocked = shape_f1_blocked_alias(case)
         redirected = any(cmd.get("redir") and cmd["redir"][0] == "valid" and any(s in NOSTART for s in cmd["stages"][cmd["redir"][1] + 1:])
                          for cmd in case["cmds"])     # a redirect file opened for an earlier stage of that pipeline
         if group == "resources" and all(_f1_resource_problem(p, blocked, redirected) for p in probs):
-            return "C09-F1"
+            out.append("C09-F1")
         if shape_f1_alias_before(case):
             if group == "std" and all(p.endswith("-> FileThreadDispatcher") for p in probs):
-                return "C09-F1"
+                out.append("C09-F1")
             if group == "sigint" and all("surfaced as None" in p and "ProcProxyThread._signal_int" in p for p in probs):
-                return "C09-F1"
+                out.append("C09-F1")
     if group == "resources" and level == "immediate" and shape_f4(case) and all(p.startswith("child-unreaped:") for p in probs):
-        return "C09-F4"
+        out.append("C09-F4")
     if group == "handler" and shape_f2(case):
         if all(p.startswith("handler SIGINT:") and p.endswith("-> ProcProxyThread._signal_int") for p in probs):
-            return "C09-F2"
+            out.append("C09-F2")
     if group == "sigint" and shape_f2(case):
         # every repetition nests one more saved handler (F2); a few hundred levels later the chain of
         # _signal_int -> _restore_sigint -> old handler calls exceeds the recursion limit
         if all("RecursionError" in p and "ProcProxyThread._signal_int" in p for p in probs):
-            return "C09-F2"
+            out.append("C09-F2")
     if group == "std" and shape_f3(case):
         if all(p.startswith(("sys.stdout replaced:", "sys.stderr replaced:")) and p.endswith("-> FileThreadDispatcher") for p in probs):
-            return "C09-F3"
+            out.append("C09-F3")
     if group == "std-closed" and shape_f3(case):
         if all(p.startswith(("closed sys.stdout:", "closed sys.stderr:")) for p in probs):
-            return "C09-F5"
+            out.append("C09-F5")
     if shape_f7(case):
         # the alias thread ends the *outer* pipeline (global XSH.lastcmd): PopenThread/ProcProxyThread clean-up runs off the main
         # thread, forgets the saved handlers without restoring them; the stale handler then swallows SIGINT
         if group == "handler" and all(p.startswith("handler ") and ("-> PopenThread._signal_" in p or p.endswith("-> ProcProxyThread._signal_int"))
                                       for p in probs) and any("PopenThread" in p for p in probs):
-            return "C09-F7"
+            out.append("C09-F7")
         if group == "sigint" and all("surfaced as None" in p and ("PopenThread._signal_int" in p or "ProcProxyThread._signal_int" in p)
                                      for p in probs):
-            return "C09-F7"
+            out.append("C09-F7")
     if group == "sigint" and "std-closed" in also and shape_f3(case):
         # a non-last alias thread died printing to the closed stream: returncode None, its SIGINT handler (F2) swallows the signal
         if all("surfaced as None" in p and "ProcProxyThread._signal_int" in p for p in probs):
-            return "C09-F5"
-    return None
+            out.append("C09-F5")
+    return out
 
 
 # ----------------------------------------------------------------------------------------
@@ -807,7 +820,7 @@ def check_case(case, tolerate=frozenset(), stats=None):
                                 "[neutral command `aneutral` alone] " + "; ".join(warm)[:900], bucket="warmup:" + _group_of(warm[0])))
     if hang is not None:
         closed = [n for n, x in zip(("stdin", "stdout", "stderr"), std0) if ob._is_closed(x)]
-        fid = classify(case, "hang", "hang", [], hang_cmd=hang if hang.get("stages") else None)
+        fid = classify(case, "hang", "hang", [], hang_cmd=hang if hang.get("stages") else None, prefer=tolerate or st["open"])
         if fid is not None and fid in tolerate:
             if stats is not None:
                 stats.excluded_known[fid] += 1
@@ -821,7 +834,7 @@ def check_case(case, tolerate=frozenset(), stats=None):
     for (level, group), probs in sorted(found.items()):
         if level == "immediate" and ("strict", group) in found and _same_classes(found[("strict", group)], probs):
             continue
-        fid = classify(case, level, group, probs, also={g for (_l, g) in found})
+        fid = classify(case, level, group, probs, also={g for (_l, g) in found}, prefer=tolerate or st["open"])
         if fid is not None and fid in tolerate:
             if stats is not None:
                 stats.excluded_known[fid] += 1
